@@ -52,6 +52,8 @@ def checksum_with_trace(fileutils, path, chunk, algo):
     builtins.open = spy
     try:
         digest = fileutils.compute_file_checksum(path, read_chunksize=chunk, algorithm=algo)
+    except Exception as e:        # an exception out of the helper is an observation, not a harness failure
+        digest = 'EXC:%s: %s' % (type(e).__name__, e)
     finally:
         builtins.open = real_open
     return digest, log
@@ -145,7 +147,10 @@ def run(ctx):
                     ctx.violation({'kind': 'checksum-large', 'algo': algo}, {'size': size, 'chunk': k, 'reads': log[:8]},
                                   'compute_file_checksum(size=%d, chunk=%d, %s) wrong' % (size, k, algo))
                 batch.append({'n': size, 'k': k, 'ev': [{'req': a, 'got': b} for a, b in log]})
-    default = fileutils.compute_file_checksum(fpath)
+    try:
+        default = fileutils.compute_file_checksum(fpath)
+    except Exception as e:
+        default = 'EXC:' + type(e).__name__
     if default != hashlib.sha256(open(fpath, 'rb').read()).hexdigest():
         ctx.violation({'kind': 'checksum-default'}, {}, 'compute_file_checksum default arguments wrong')
     ctx.cov['evaluations'] += n
